@@ -52,13 +52,14 @@ def one(ctx, res: Result, hist, cfg, batch, faults=(), delete_root=False):
         return bad
     recursive, full, kind = cfg
     run = pipe.Run(recursive=recursive, full=full, path_kind=kind)
+    base = len(run.g.add_watch_log)
     for n in faults:
-        run.g.add_watch_faults[n + len(run.g.add_watch_log)] = 2      # ENOENT at the n-th call after start
+        run.g.add_watch_faults[n + base] = 2      # ENOENT at the n-th inotify_add_watch call after start
     bad = None
     try:
         run.execute(hist)
         bad = before_close(run)
-        case = run.model_case()
+        case = run.model_case(faults=[n + base for n in faults])
     finally:
         stopped = run.close()
     meta = {**pipecheck.meta_of(hist, cfg), "add_watch_faults": list(faults), "delete_root": delete_root}
@@ -73,7 +74,7 @@ def one(ctx, res: Result, hist, cfg, batch, faults=(), delete_root=False):
     for law, what, got in bad or []:
         res.failures.append(Failure(what=what, case=meta, signature={"law": law}, observed=got, expected="see property C07"))
     res.failures += pipecheck.thread_failures(run, stopped, meta, "C07")
-    if not faults and not delete_root:
+    if not delete_root:
         batch.append((meta, run, case))
 
 
